@@ -47,11 +47,90 @@ def exclude(ctx, case, model):
     return None
 
 
+def recreated_class_cases(ctx, only=None):
+    """A class that passes through the meta-class TWICE - what @dataclasses.dataclass(slots=True) does, or any class
+    decorator that rebuilds the class with type(cls)(name, bases, dict) - on a single inheritance path: every condition is
+    still called at most once per check, inherited ones first."""
+    import dataclasses
+
+    import icontract
+
+    for how in ("dataclass(slots=True)", "rebuilt by a class decorator", "rebuilt twice"):
+        for member in ("method", "property"):
+            if only and only != [how, member]:
+                continue
+            log = []
+
+            def c(tag, value=True):
+                def cond(**kw):
+                    log.append(tag)
+                    return value
+                return cond
+
+            def mk(tag):
+                def f(self, x=1):
+                    log.append(tag + "-body")
+                    return x
+                return f
+
+            def named(tag, value, param):
+                # (named functions: a lambda outside a decorator has no source to build a message from)
+                def cond_self(self):
+                    log.append(tag)
+                    return value
+
+                def cond_result(result):
+                    log.append(tag)
+                    return value
+                return cond_self if param == "self" else cond_result
+
+            def contracted(f, who):
+                f = icontract.ensure(named(who + "-post", True, "result"))(f)
+                f = icontract.snapshot(named(who + "-cap", 0, "self"), name=who + "_snap")(f)
+                return icontract.require(named(who + "-pre", who != "base", "self"))(f)
+
+            def rebuild(cls):
+                ns = {k: v for k, v in vars(cls).items() if k not in ("__dict__", "__weakref__")}
+                return type(cls)(cls.__name__, cls.__bases__, ns)
+
+            label = "%s, %s" % (how, member)
+            try:
+                wrap = (lambda f: property(f)) if member == "property" else (lambda f: f)
+                Base = type(icontract.DBC)("Base", (icontract.DBC,), {"f": wrap(contracted(mk("base"), "base"))})
+                ns = {"f": wrap(contracted(mk("sub"), "sub")), "__annotations__": {"v": int}, "v": 0}
+                Sub = type(icontract.DBC)("Sub", (Base,), ns)
+                if how.startswith("dataclass"):
+                    Sub = dataclasses.dataclass(slots=True)(Sub)
+                else:
+                    Sub = rebuild(Sub)
+                    if how.endswith("twice"):
+                        Sub = rebuild(Sub)
+                del log[:]
+                r = Sub().f if member == "property" else Sub().f(1)
+                got = list(log)
+            except BaseException as e:  # noqa
+                got = ("failed", type(e).__name__, str(e)[:140])
+            # the base group fails, the sub-class' own group holds; then captures and postconditions, inherited first
+            want = ["base-pre", "sub-pre", "base-cap", "sub-cap", "sub-body", "base-post", "sub-post"]
+            ctx.case(["recreated-class", how, member], True, sample={"directed": label, "evaluated": str(got)[:160]})
+            ctx.count("directed:recreated-class-cases")
+            if got != want:
+                ctx.fail("recreated-class|%s|%s" % (how.split("(")[0].split(" ")[0], member), {"recreated_class": [how, member]},
+                         "%s: one call evaluated %r, expected %r" % (label, got, want))
+
+
 def run(ctx, tier, seed, shard, nshards):
     n = 400 if tier == "quick" else 2000
     D.explore(ctx, seed, n, strategy(), JUDGE, limit_all=6 if tier == "quick" else 9, n_sample=24,
               nontrivial=nontrivial, exclude=exclude)
+    if shard == 0:
+        recreated_class_cases(ctx)
 
 
 def replay(ctx, case):
+    if case.get("recreated_class"):
+        before = ctx.evaluations
+        recreated_class_cases(ctx, only=case["recreated_class"])
+        ctx.evaluations = before + 1
+        return
     D.replay_case(ctx, case, JUDGE)
